@@ -158,10 +158,31 @@ class LexTables:
             bools = [n["v"] for n in hirq.lits(a["body"], "bool")]
             ints = [n["v"] for n in hirq.lits(a["body"], "int")]
             via_suffix = any((hirq.callee(c) or "").endswith("parse_integer_suffix") for c in hirq.calls(a["body"]))
+            # .. or through another lookup function of the lexer that maps spellings to type keywords (one level)
+            via_table = None
+            if not vts and not via_suffix:
+                for c in hirq.calls(a["body"]):
+                    cn = hirq.callee(c) or ""
+                    if cn.startswith(self.fn.rsplit("::", 1)[0] + "::") and F.has_body(cn):
+                        try:
+                            hm = hirq.find_match(F.body(cn), min_arms=5)
+                        except AnchorMissing:
+                            continue
+                        t_ = {}
+                        for ha in hm["arms"]:
+                            hv = [p_.split("::")[-1] for p_, _ in hirq.constructs(ha["body"]) if "ValueType" in p_.rsplit("::", 1)[0]]
+                            for halt in hirq.pat_alts(ha["pat"]):
+                                halt = hirq.strip_ref(halt)
+                                if halt.get("k") == "Lit" and halt.get("lk") in ("str", "bytes") and hv:
+                                    t_[halt["v"]] = hv[0]
+                        if t_:
+                            via_table = t_
             for sp in spellings:
                 vt = vts[0] if vts else None
                 if via_suffix:
                     vt = suffix.get(sp)
+                elif via_table is not None:
+                    vt = via_table.get(sp)
                 bv = None
                 if tok(toks[0] if toks else None) == "BoolLiteral":
                     if bools:
